@@ -11,7 +11,7 @@ IntOpts == Ch({"b", "B", "h", "H", "l", "L", "j", "J", "T", "i", "I"}) \cup Size
              \cup {<<"i", "0", "3">>}
 FloatOpts == Ch({"f", "d", "n"})
 StrOpts == Ch({"s", "z", "c"}) \cup Sized("s", {0, 1, 2, 4, 8, 16, 17}) \cup Sized("c", {0, 1, 2, 5})
-PadOpts == Ch({"x", "X"}) \cup {<<"X">> \o t : t \in Ch({"b", "h", "d", "j"}) \cup Sized("i", {3, 4, 8, 16}) \cup Sized("s", {2}) \cup Sized("I", {2})}
+PadOpts == Ch({"x", "X"}) \cup {<<"X">> \o t : t \in Ch({"b", "h", "d", "j"}) \cup Sized("i", {3, 4, 8, 16}) \cup Sized("I", {2})}
 BadOpts == Ch({"q", "y", "1", "[", "a"})
 AlphaAll == Config \cup IntOpts \cup FloatOpts \cup StrOpts \cup PadOpts \cup BadOpts
 
